@@ -122,7 +122,9 @@ class Harness(object):
             e = Boom(fid)
             tr.append(('leave', fid, 'raise', self.tag(e)))
             raise e
-        if fid == 'ep':
+        if fid == 'sib':
+            kind = 'response'
+        elif fid == 'ep':
             kind = script if script != 'pass' else self.ep_result
         else:
             kind = 'response' if script == 'pass' else script
@@ -221,8 +223,17 @@ class Harness(object):
         tkey = (tname, bool(m.get('unique', True)), bool(m.get('reorderable', True)))
         base = types.get(tkey)
         if base is None:
-            exec('class %s(Middleware):\n    unique = %r\n    reorderable = %r\n'
-                 % (tname, bool(m.get('unique', True)), bool(m.get('reorderable', True))), dict(Middleware=Middleware), ns)
+            parent = Middleware
+            if m.get('parent'):
+                # a middleware type that *inherits* from another declared type (still a different type)
+                pkey = (m['parent'], True, True)
+                parent = types.get(pkey)
+                if parent is None:
+                    exec('class %s(Middleware):\n    unique = True\n    reorderable = True\n' % m['parent'],
+                         dict(Middleware=Middleware), ns)
+                    parent = types[pkey] = ns[m['parent']]
+            exec('class %s(Parent):\n    unique = %r\n    reorderable = %r\n'
+                 % (tname, bool(m.get('unique', True)), bool(m.get('reorderable', True))), dict(Parent=parent), ns)
             base = types[tkey] = ns[tname]
         ns['Base'] = base
         src = 'class Inst(Base):\n' + (''.join(lines) or '    pass\n')
@@ -301,6 +312,12 @@ class Harness(object):
         outer_res = dict((n, self.value(('res', n))) for n in cfg.get('outer_res', []))
         route = Route(pattern, ep, rn, methods=['GET'], middlewares=[x for x, m in zip(insts, cfg['mws']) if m['level'] == 'route'],
                       resources=route_res)
+        sibling = []
+        if cfg.get('sibling'):
+            # a plain route bound *after* the main one: it must not inherit anything from the main route
+            sib = self.make_callable('sib', {'params': []}, 'func')
+            self.scripts['sib'] = 'response'
+            sibling = [Route('/sib', sib)]
         app_mws = [x for x, m in zip(insts, cfg['mws']) if m['level'] == 'app']
         has_outer = any(m['level'] == 'outer' for m in cfg['mws']) or cfg.get('embedded')
         kw = {}
@@ -309,12 +326,16 @@ class Harness(object):
         if construct == 'add':
             app = Application([], resources=app_res, middlewares=app_mws, **kw)
             app.add(route)
+            for sr in sibling:
+                app.add(sr)
         elif construct == 'bind':
             app = Application([], resources=app_res, middlewares=app_mws, **kw)
             route.bind(app)
             app.add(route)
+            for sr in sibling:
+                app.add(sr)
         else:
-            app = Application(self.decoy_entries(cfg, decoys) + [route], resources=app_res, middlewares=app_mws, **kw)
+            app = Application(self.decoy_entries(cfg, decoys) + [route] + sibling, resources=app_res, middlewares=app_mws, **kw)
         if has_outer:
             kw = {}
             if error_handler is not None:
